@@ -17,8 +17,9 @@ import (
 )
 
 type decision struct {
-	cond *sym.Term
-	val  bool
+	cond   *sym.Term
+	val    bool
+	forced bool // the other side was infeasible: implied by the path condition, not asserted
 }
 
 type workItem struct {
@@ -174,19 +175,23 @@ func (ex *explorer) inputTerms() []*sym.Term {
 	return ts
 }
 
-func (ex *explorer) record(c *sym.Term, v bool) {
-	ex.trace = append(ex.trace, decision{c, v})
-	if v {
-		ex.addPC(c)
+func (ex *explorer) record(c *sym.Term, v bool, forced bool) {
+	ex.trace = append(ex.trace, decision{c, v, forced})
+	t := c
+	if !v {
+		t = sym.Not(c)
+	}
+	if forced {
+		ex.noteTrue(t)
 	} else {
-		ex.addPC(sym.Not(c))
+		ex.addPC(t)
 	}
 }
 
 func (ex *explorer) enqueue(c *sym.Term, v bool, m sym.Model) {
 	p := make([]decision, len(ex.trace)+1)
 	copy(p, ex.trace)
-	p[len(ex.trace)] = decision{c, v}
+	p[len(ex.trace)] = decision{c, v, false}
 	ex.queue = append(ex.queue, workItem{prefix: p, model: m})
 }
 
@@ -203,7 +208,7 @@ func (ex *explorer) decide(c *sym.Term) bool {
 			panic(pathEnd{status: stEngineError, detail: fmt.Sprintf("non-deterministic replay at decision %d: expected %.120s got %.120s", ex.pos, d.cond, c)})
 		}
 		ex.pos++
-		ex.record(c, d.val)
+		ex.record(c, d.val, d.forced)
 		return d.val
 	}
 	var mv *sym.Term
@@ -223,12 +228,12 @@ func (ex *explorer) decide(c *sym.Term) bool {
 		case smt.Unknown:
 			ex.unknownHere = true
 		}
-		ex.record(c, side)
+		ex.record(c, side, r == smt.Unsat)
 		return side
 	}
 	r1, m1 := ex.check(c)
 	if r1 == smt.Unsat {
-		ex.record(c, false)
+		ex.record(c, false, true)
 		return false
 	}
 	r2, m2 := ex.check(sym.Not(c))
@@ -241,7 +246,7 @@ func (ex *explorer) decide(c *sym.Term) bool {
 		if m1 != nil {
 			ex.model = m1
 		}
-		ex.record(c, true)
+		ex.record(c, true, r2 == smt.Unsat)
 		return true
 	}
 	// r1 unknown
@@ -250,7 +255,7 @@ func (ex *explorer) decide(c *sym.Term) bool {
 		if m2 != nil {
 			ex.model = m2
 		}
-		ex.record(c, false)
+		ex.record(c, false, false)
 		return false
 	}
 	panic(pathEnd{status: stSolverUnkown, detail: "solver could not decide a branch"})
@@ -333,6 +338,7 @@ func (ex *explorer) newInput(fr *frame, id, kind string, k types.BasicKind, lo, 
 		so = sym.Int
 	case "f32", "f64":
 		so = sym.Real
+		ex.solver.UseNRA = true
 	}
 	t := sym.Var(sanitize(id)+sortTag(so), so)
 	in := &Input{ID: id, Kind: kind, Lo: lo, Hi: hi, term: t}
